@@ -17,7 +17,8 @@ Record obs := mkObs {
   o_pens : list (N * (N * N));
   o_bal : list (N * N);
   o_black : list N;
-  o_maxauth : list (N * N)
+  o_maxauth : list (N * N);
+  o_prev : list (N * peerv)             (* the pool stored under view-1 *)
 }.
 
 Definition peerv_eqb (a b : peerv) : bool :=
@@ -55,14 +56,15 @@ Definition obs_ok (s : state) (o : obs) : bool :=
   pool_eqb (s_pool s) (o_pool o) && imap_eqb (s_infos s) (o_infos o) &&
   nmap_eqb (s_stakes s) (o_stakes o) && penmap_eqb (s_pens s) (o_pens o) &&
   nmap_eqb (s_ont s) (o_bal o) && set_eqb (s_black s) (o_black o) &&
-  nmap_eqb (s_maxauth s) (o_maxauth o).
+  nmap_eqb (s_maxauth s) (o_maxauth o) && pool_eqb (s_prev s) (o_prev o).
 
 (** A step records either the whole decoded storage ([st_full]) or only the records that
     differ from the previous step ([st_del] = peers that left the pool; a record that
     disappeared is listed with its default value). *)
-Record stepRec := mkStep { st_h : N; st_op : op; st_res : res; st_full : bool; st_del : list N; st_obs : obs }.
+Record stepRec := mkStep { st_h : N; st_op : op; st_res : res; st_full : bool; st_prevchg : bool; st_del : list N; st_obs : obs }.
 
-Definition delta_ok (s : state) (del : list N) (o : obs) : bool :=
+Definition delta_ok (s : state) (prevchg : bool) (del : list N) (o : obs) : bool :=
+  (if prevchg then pool_eqb (s_prev s) (o_prev o) else true) &&
   (s_view s =? o_view o) && (s_vheight s =? o_vheight o) &&
   forallb (fun kv => match pget (fst kv) (s_pool s) with Some p => peerv_eqb p (snd kv) | None => false end) (o_pool o) &&
   forallb (fun k => match pget k (s_pool s) with Some _ => false | None => true end) del &&
@@ -74,7 +76,7 @@ Definition delta_ok (s : state) (del : list N) (o : obs) : bool :=
   forallb (fun kv => nget (fst kv) (s_maxauth s) =? snd kv) (o_maxauth o).
 
 Definition step_ok (s' : state) (e : res) (r : stepRec) : bool :=
-  res_eqb e (st_res r) && (if st_full r then obs_ok s' (st_obs r) else delta_ok s' (st_del r) (st_obs r)).
+  res_eqb e (st_res r) && (if st_full r then obs_ok s' (st_obs r) else delta_ok s' (st_prevchg r) (st_del r) (st_obs r)).
 
 Fixpoint steps_ok (s : state) (l : list stepRec) : bool :=
   match l with
